@@ -30,15 +30,17 @@ func plusShape(g *gen.G, fn string, metas []gen.MetaVar, hasDots bool) string {
 	r := g.R
 	var args []string
 	for _, m := range metas {
-		switch r.Intn(5) {
+		switch r.Intn(6) {
 		case 0: // drop
+		case 5:
+			args = append(args, "w(«"+m.Name+"»)")
 		case 1:
 			args = append(args, "«"+m.Name+"»", "«"+m.Name+"»")
 		case 2:
-			if m.Kind == "expression" {
+			// wrappers around identifiers too: in generated code all of them sit at the same (collapsed) position
+			args = append(args, "w(«"+m.Name+"»)")
+			if r.Intn(3) == 0 {
 				args = append(args, "w(«"+m.Name+"»)")
-			} else {
-				args = append(args, "«"+m.Name+"»")
 			}
 		default:
 			args = append(args, "«"+m.Name+"»")
@@ -71,6 +73,10 @@ func genC09Seq(g *gen.G) *c09Seq {
 		metas = append(metas, gen.MetaVar{Name: "y", Kind: []string{"expression", "identifier"}[r.Intn(2)]})
 	}
 	hasDots := r.Intn(3) == 0
+	if r.Intn(8) == 0 {
+		// nothing but an elision: t0(...) also matches the empty call t0()
+		metas, hasDots = nil, true
+	}
 	margs := []string{}
 	for _, m := range metas {
 		margs = append(margs, "«"+m.Name+"»")
@@ -104,6 +110,14 @@ func genC09Seq(g *gen.G) *c09Seq {
 				role = "noop"
 			case 5:
 				role = "failing"
+			case 6, 7:
+				if strings.Contains(curMinus, "w(") {
+					role = "sub" // rewrites the wrappers the previous change generated, each with its own binding
+				}
+			case 8, 9, 10:
+				if strings.HasSuffix(curMinus, "(‹1:args›)") && !strings.Contains(curMinus, "«") {
+					role = "empty-literal" // spells the list an elision may have left empty as a literal empty list
+				}
 			}
 		}
 		suffix := fmt.Sprint(i)
@@ -147,6 +161,18 @@ func genC09Seq(g *gen.G) *c09Seq {
 				live = nl
 				liveHasDots = strings.Contains(curMinus, "‹1:args›")
 			}
+		case "sub":
+			c := &gen.Change{Kind: "expr", Schema: "c09-sub", Meta: []gen.MetaVar{{Name: "s" + suffix, Kind: "expression"}},
+				Lines: []gen.Line{gen.L('-', "w(«s"+suffix+"»)"), gen.L('+', "w2(«s"+suffix+"»)")}}
+			s.changes = append(s.changes, c)
+			curMinus = strings.ReplaceAll(curMinus, "w(", "w2(")
+		case "empty-literal":
+			fn := curMinus[:strings.Index(curMinus, "(")]
+			c := &gen.Change{Kind: kind, Schema: "c09-empty-literal", Lines: []gen.Line{gen.L('-', wrap(fn+"()")), gen.L('+', wrap(fn+"(dflt())"))}}
+			if stmt {
+				c.Meta = []gen.MetaVar{{Name: "v", Kind: "identifier"}}
+			}
+			s.changes = append(s.changes, c)
 		case "killer":
 			// matches what the first change removed
 			minusT, ms := renameMetas(s.base.Side('-'), s.base.Meta, "k"+suffix)
